@@ -52,6 +52,9 @@ def check_c07(tier):
     rep.add("negative_control", corrupted_records_rejected=3)
     rep.assumptions = ["attribute maps are GenerateSignatureAttributesWithPublicKey(pk) plus extra entries, and the same pk is passed as the verification key (as the CLI does)",
                        "the block version is the three-element one C07 states"]
+    # the command-line path (sign-bundle integrity-block): same obligations on the file the tool leaves behind
+    from cli_checks import ib_cli
+    ib_cli(rep, "C07")
     return rep.finish()
 
 
